@@ -26,6 +26,10 @@ func checkC10(p *Prog, r *Report) {
 	rulePfxRec(p, r)
 	ruleExLen(p, r)
 	r.Floor("EXLEN", 1)
+	ruleReadAhead(p, r)
+	r.Floor("READAHEAD", 3)
+	ruleStreamPos(p, r)
+	r.Floor("STREAMPOS", 1)
 	r.Floor("PFXREC", 7)
 	ruleMarker(p, r)
 	ruleWindow(p, r)
